@@ -93,8 +93,16 @@ type Store struct {
 	OpenRows            int
 	CtxCancel           int // context tag that is "cancelled": every call with it fails
 	OnExec              func(text string, args []driver.Value) Result
+	OnExecCtx           func(ctx int, text string, args []driver.Value) Result // takes precedence over OnExec
 	OnQuery             func(text string, args []driver.Value) RowSet
 	NoSavepoint         bool
+	Before              func() // called before every BEGIN/EXEC/QUERY/COMMIT boundary call, outside the driver lock (C07 pause point)
+}
+
+func (s *Store) pausePoint() {
+	if s.Before != nil {
+		s.Before()
+	}
 }
 
 func NewStore() *Store { return &Store{} }
@@ -222,7 +230,9 @@ func (s *Store) Exec(tx *txState, ctx int, text string, args []driver.Value) (Re
 		return Result{}, nil
 	}
 	res := Result{Affected: 1}
-	if s.OnExec != nil {
+	if s.OnExecCtx != nil {
+		res = s.OnExecCtx(ctx, text, args)
+	} else if s.OnExec != nil {
 		res = s.OnExec(text, args)
 	}
 	if res.Affected == 0 {
